@@ -64,13 +64,19 @@ Example prefilter_needs_guard :
   /\ filter (prefilter re_toy float_toy true terms1 (fun _ => false)) rows = [].
 Proof. vm_compute. repeat split; reflexivity. Qed.
 
-(* A literal with more than six decimals does not survive %f: {.x > 0.0000001} against x = 0.00000005
-   (recorded finding float-literal-6-decimals) *)
+(* A literal with more than six decimals reaches the statement unchanged (before 57651aa FloatVal printed six
+   decimals and {.x > 0.0000001} selected like {.x > 0}): the text is 0.0000001, it parses back to the query's
+   number, and x = 0.00000005 is not selected under either reading. *)
 Definition e2 : attr_exp :=
-  AExp (HTerm (T ".x" CGt {| v_time := ""; v_f := "0.0000001"; v_str := None; v_unq := None; v_ffmt := Some "0.000000"; v_dur := None |})) AONone None.
-Example rounding_gap :
-  let rows := [R "x" "0.00000005" "t1" "s1" 5 1] in
-  lits_exact e2 = false /\ exp_sem re_toy float_toy true e2 rows = true /\ exp_sem re_toy float_toy false e2 rows = false.
+  AExp (HTerm (T ".x" CGt {| v_time := ""; v_f := "0.0000001"; v_str := None; v_unq := None; v_ffmt := Some "0.0000001"; v_dur := None |})) AONone None.
+Example literal_survives :
+  let rows := [R "x" "0.00000005" "t1" "s1" 5 1; R "x" "0.0000002" "t1" "s2" 6 1] in
+  num_text (a_val (T ".x" CGt (vnum "0.0000001"))) = Some "0.0000001"
+  /\ num_text (a_val (T ".x" CGt (vnum "12345.678900"))) = Some "12345.6789"
+  /\ num_text (a_val (T ".x" CGt (vnum "-2."))) = Some "-2"
+  /\ lits_exact e2 = true
+  /\ exp_sem re_toy float_toy true e2 [R "x" "0.00000005" "t1" "s1" 5 1] = false
+  /\ exp_sem re_toy float_toy true e2 rows = true /\ exp_sem re_toy float_toy false e2 rows = true.
 Proof. vm_compute. repeat split; reflexivity. Qed.
 
 (* portions_fold_topk: a run over two portions, limit 2.  Portion 0 holds pt1 (time 5) and pt3 (time 7), portion 1
